@@ -37,17 +37,21 @@ var confs = []confDim{{1, true}, {2, true}, {1, false}, {2, false}}
 // caseSpec is one history: first run ended by a kill or a graceful stop, second run drains.
 type caseSpec struct {
 	Conf   confDim `json:"conf"`
-	Kind   string  `json:"kind"`             // "kill" | "stop"
+	Kind   string  `json:"kind"`             // "kill" | "stop" | "pwkill" (SIGKILL at the Occ-th page write of the process, by strace)
 	Key    string  `json:"key,omitempty"`    // kill: point id without its line number
 	Moment string  `json:"moment,omitempty"` // stop: name of the stop moment (shared with C03 part B)
 	Occ    int     `json:"occurrence"`
 	Label  string  `json:"occurrence_label"` // "1", "2", "3", "last"
 	// DelayUS > 0: the kill comes that many microseconds after the point, i.e. inside the library call that follows it
-	DelayUS int  `json:"delay_us,omitempty"`
-	Quick   bool `json:"quick_tier,omitempty"` // the second run does not wait for outlinks still in the producer's batch
+	DelayUS int    `json:"delay_us,omitempty"`
+	Quick   bool   `json:"quick_tier,omitempty"` // the second run does not wait for outlinks still in the producer's batch
+	PwLog   string `json:"-"`                    // internal: log the page writes of the first run to this file
 }
 
 func (c caseSpec) name() string {
+	if c.Kind == "pwkill" {
+		return fmt.Sprintf("[%s] SIGKILL at page write %d (pwrite64) of the process", c.Conf.name(), c.Occ)
+	}
 	if c.Kind == "kill" {
 		if c.DelayUS > 0 {
 			return fmt.Sprintf("[%s] SIGKILL %d us after hit %s (%d) of %s", c.Conf.name(), c.DelayUS, c.Label, c.Occ, c.Key)
@@ -227,8 +231,11 @@ func runHistory(cs caseSpec, profile bool, keepDir string) (v verdict) {
 	spec := &e2e.ChildSpec{Dir: dir, Conf: c, Mode: "drain", Quiesce: true, DeadlineS: 50, Profile: profile}
 	hooks := e2e.RunHooks{}
 	sentByParent := make(chan bool, 1)
+	spec.PwriteLog = cs.PwLog
 	switch {
 	case profile:
+	case cs.Kind == "pwkill":
+		spec.KillAtPwrite = cs.Occ
 	case cs.Kind == "kill":
 		do := "sigkill"
 		if cs.DelayUS > 0 {
@@ -264,6 +271,8 @@ func runHistory(cs caseSpec, profile bool, keepDir string) (v verdict) {
 		hkit.EngineError("child: %v", err)
 	}
 	switch {
+	case cs.Kind == "pwkill":
+		v.Fired = r1.Signal != "" || r1.ExitCode == 137
 	case hold != nil:
 		select {
 		case v.Fired = <-sentByParent:
@@ -295,6 +304,10 @@ func runHistory(cs caseSpec, profile bool, keepDir string) (v verdict) {
 	if err != nil {
 		if os.IsNotExist(err) {
 			rows1 = nil // killed before the adapter created the table... cannot happen: the harness created it
+		}
+		if cs.Kind == "pwkill" {
+			v.Violations = append(v.Violations, violation{"queue-database-unreadable-after-kill", fmt.Sprintf("lq.db cannot be read after the kill: %v", err)})
+			return v
 		}
 		hkit.EngineError("reading lq.db after the first run: %v", err)
 	}
@@ -376,7 +389,16 @@ func runHistory(cs caseSpec, profile bool, keepDir string) (v verdict) {
 	}
 	rows2, err := e2e.ReadLQ(dir, c.Job)
 	if err != nil {
+		if cs.Kind == "pwkill" {
+			v.Violations = append(v.Violations, violation{"queue-database-unreadable-after-restart", fmt.Sprintf("lq.db cannot be read after the second run: %v", err)})
+			return v
+		}
 		hkit.EngineError("reading lq.db after the second run: %v", err)
+	}
+	if cs.Kind == "pwkill" {
+		if res, err := e2e.CheckLQ(dir, c.Job); err == nil && res != "ok" {
+			v.Violations = append(v.Violations, violation{"queue-database-damaged", fmt.Sprintf("after the kill and the second run SQLite's integrity check of lq.db says: %s", res)})
+		}
 	}
 	v.AfterRun2 = rowStates(o, rows2)
 	finishes1 := 0
@@ -518,6 +540,39 @@ func buildCases(tier string, profiles, preStop map[string]map[string]int64) []ca
 	return out
 }
 
+// pwriteCases: a SIGKILL at every page write (pwrite64: SQLite's writes to lq.db and to its rollback journal) of an
+// undisturbed first run - the kill points BETWEEN the writes of one commit, which no Go-level point reaches. The
+// number of writes is measured on the tree under test by one logged run per configuration.
+func pwriteCases(tier string) []caseSpec {
+	if _, err := exec.LookPath("strace"); err != nil {
+		return nil
+	}
+	var out []caseSpec
+	ds := confs[:1]
+	if tier == "thorough" {
+		ds = confs
+	}
+	for _, d := range ds {
+		logf := filepath.Join(os.Getenv("VERIF_TMP"), "c04-pwrites-"+strings.ReplaceAll(d.name(), " ", "_")+".log")
+		v := runHistory(caseSpec{Conf: d, Kind: "stop", Moment: e2e.DrainedMoment, Occ: 1, PwLog: logf}, false, "")
+		b, err := os.ReadFile(logf)
+		if err != nil || len(v.Violations) > 0 {
+			hkit.EngineError("the logged history of %s is not clean: %v %+v", d.name(), err, v.Violations)
+		}
+		n := strings.Count(string(b), "pwrite64(")
+		if n == 0 {
+			hkit.EngineError("no page write seen in the logged history of %s", d.name())
+		}
+		if tier != "thorough" && n > 64 {
+			n = 64 // quick: the start-up reset, the first claims and the first deletes; thorough: every write of every configuration
+		}
+		for k := 1; k <= n; k++ {
+			out = append(out, caseSpec{Conf: d, Kind: "pwkill", Occ: k, Label: fmt.Sprint(k), Quick: tier != "thorough"})
+		}
+	}
+	return out
+}
+
 func aggregate(hits map[string]int64) map[string]int64 {
 	out := map[string]int64{}
 	for k, n := range hits {
@@ -587,6 +642,7 @@ func main() {
 		prefixEvals, prefixFiles, prefixViolation = prefixes(keep)
 		os.RemoveAll(keep)
 		cf.Cases = buildCases(a.Tier, cf.Profiles, cf.PreStop)
+		cf.Cases = append(cf.Cases, pwriteCases(a.Tier)...)
 		if f, ok := a.Extra["only"]; ok {
 			var keepc []caseSpec
 			for _, c := range cf.Cases {
